@@ -26,7 +26,7 @@ func isCfgCall(v ssa.Value, name string) bool {
 }
 
 func checkC13(c *Ctx) {
-	c.Explanation = "Decides the retry structure of the file handler on every CFG path: (R1) classification — Handle returns only (a) at once for an error that is neither io.EOF nor an 'i/o timeout', (b) when the configured tolerance TimeoutOnEOF() is zero, (c) when the time since the first of a run of EOF/timeout results exceeds TimeoutOnEOF(); in every other case it loops to the next read; (R2) forward-once — every read that yields a byte is followed, before the next read or return, by exactly one send of that byte on the byte channel; the read buffer is a fresh one-byte slice, for which bufio.Reader.Read never returns data together with an error, so the error branch cannot hide a byte; (R3) the EOF clock is cleared on the success path and started only when it is clear; (R4) the byte channel is closed by a deferred close that covers every return, so the framer flushes the partial frame and closes its output (C02-R5, evaluated here too)."
+	c.Explanation = "Decides the retry structure of the file handler on every CFG path: (R1) classification — Handle returns only (a) at once for an error that is neither io.EOF nor an 'i/o timeout', (b) when the configured tolerance TimeoutOnEOF() is zero, (c) when the time since the first of a run of EOF/timeout results exceeds TimeoutOnEOF(); in every other case it loops to the next read; (R2) forward-once — every read that yields a byte is followed, before the next read or return, by exactly one send of that byte on the byte channel; the read buffer is a fresh one-byte slice, for which bufio.Reader.Read never returns data together with an error, so the error branch cannot hide a byte; (R3) the EOF clock is cleared on the success path and started only when it is clear; (R4) the byte channel is closed by a deferred close that covers every return, so the framer flushes the partial frame and closes its output (C02-R5, evaluated here too). R1 also requires Config.TimeoutOnEOF/WaitTimeOnEOF to be branch-free projections of one setting each, so a configured zero tolerance is zero."
 	c.NotDecided = "real time (sleep durations, clock monotonicity); behaviour of readers other than *bufio.Reader (the parameter's static type)."
 	c.Assumptions = append(c.Assumptions, "bufio.Reader.Read with a destination shorter than its internal buffer (>=16 bytes) returns n>0 only with a nil error (copy from the buffer), and (0, err) otherwise")
 	pl := resolvePipeline(c, "C13-anchor")
@@ -61,6 +61,8 @@ func checkC13(c *Ctx) {
 		return
 	}
 	ruleTransientGaps(c, fn, nVal, errVal, "C13-R1", "C13-R3")
+	// the tolerance the classification consults is the configured one: "zero" means zero
+	ruleToleranceAccessors(c, "C13-R1")
 	// ---- R2 forward once
 	ruleForwardOnce(c, pl, "C13-R2", read, nVal, errVal)
 	// ---- R4 close and flush
@@ -376,5 +378,58 @@ func ruleTransientGaps(c *Ctx, fn *ssa.Function, nVal, errVal ssa.Value, rule1, 
 				c.Check(good, rule3, label+":started-when-clear", clock.Pos(), "clock set to time.Now() only when it was clear (first EOF of a run)", "the EOF clock is restarted on every EOF (the tolerance never elapses) or set to something other than the current time")
 			}
 		}
+	}
+}
+
+// ruleToleranceAccessors: Config.TimeoutOnEOF and Config.WaitTimeOnEOF are projections of one setting
+// each — a branch-free `time.Duration(config.<field>) * <positive constant>` — so the value Handle tests
+// against zero is zero exactly when the setting is (an accessor that clamps or combines settings turns
+// "no tolerance" into some tolerance).
+func ruleToleranceAccessors(c *Ctx, rule string) {
+	P := c.P
+	seenField := map[*types.Var]string{}
+	for _, name := range []string{"TimeoutOnEOF", "WaitTimeOnEOF"} {
+		fn := P.Func("jsonconfig", "(*Config)."+name)
+		if fn == nil {
+			c.Unresolved(rule, "jsonconfig.(*Config)."+name)
+			continue
+		}
+		ok := true
+		why := ""
+		eachInstr(fn, func(ins ssa.Instruction) {
+			if ifi, isIf := ins.(*ssa.If); isIf && !blockDead(ifi.Block()) {
+				ok, why = false, "it branches"
+			}
+		})
+		rets := returnsOf(fn)
+		if len(rets) != 1 || len(rets[0].Results) != 1 {
+			ok, why = false, "it has several returns"
+		}
+		if ok {
+			var fld *types.Var
+			v := stripConv(rets[0].Results[0])
+			if bo, isB := v.(*ssa.BinOp); isB && bo.Op == token.MUL {
+				x, y := bo.X, bo.Y
+				if k, isC := constInt(x); isC && k > 0 {
+					x, y = y, x
+				}
+				if k, isC := constInt(y); isC && k > 0 {
+					if f, base := loadedField(stripConv(x)); f != nil && len(fn.Params) > 0 && root(base) == ssa.Value(fn.Params[0]) {
+						fld = f
+					}
+				}
+			} else if f, base := loadedField(v); f != nil && len(fn.Params) > 0 && root(base) == ssa.Value(fn.Params[0]) {
+				fld = f
+			}
+			if fld == nil {
+				ok, why = false, "its result is not one setting times a positive constant"
+			} else if other, dup := seenField[fld]; dup {
+				ok, why = false, "it reads the setting of "+other
+			} else {
+				seenField[fld] = name
+			}
+		}
+		c.Check(ok, rule, "tolerance-accessor("+name+")", fn.Pos(), name+"() is its own setting times a positive constant",
+			"Config."+name+"() is not a plain projection of its setting ("+why+"): a configured zero tolerance, or the configured limit, is replaced by another value")
 	}
 }
